@@ -47,7 +47,7 @@ bool mon_saturated(int d, int ms);
 unsigned long mon_line(int d, int ms);
 const char* mon_file();
 void destroy_dw(int d);
-void copy_dw(int dst, int src);
+void copy_dw(int dst, int src, bool from_const);
 void move_dw(int dst, int src);
 void assign_dw(int dst, int src, bool move);
 void recreate_dw(int d);
